@@ -547,7 +547,7 @@ def gen_patch(rng, model, params, world_labels, ids, allow_cf=True, in_data=Fals
     if params.get("patch_align_p", 0.0) and isa != "arm64" and rng.random() < params["patch_align_p"] and lines:
         # an alignment requirement of the patch's own
         lab_idx = [i for i, l in enumerate(lines) if "label" in l]
-        at = rng.choice(lab_idx) if lab_idx and rng.random() < 0.4 else rng.randrange(len(lines))
+        at = rng.choice(lab_idx) if lab_idx and rng.random() < 0.4 else (0 if rng.random() < 0.3 else rng.randrange(len(lines)))
         lines.insert(at, {"raw": f".align {rng.choice([2, 4, 8, 16])}"})
     if rng.random() < 0.15:
         # trailing label: forces a new block after the patch (in a data
@@ -1261,6 +1261,22 @@ def _gen_session(rng, model, params, index):
                 i = j + 1
             else:
                 i += 1
+    hint = getattr(model, "align_hint", None) or {}
+    if hint and params.get("patch_align_p") and ops and rng.random() < 0.5:
+        # a patch that starts with an alignment directive of its own, put at
+        # the very start of a block that has a (stricter) requirement itself:
+        # both requirements then apply to the same position and the stricter
+        # one must survive
+        cands = [sp for sp in spans if sp.key not in seen and sp.kind == "code" and hint.get(sp.key, 1) > 2 and sp.offsets]
+        if cands:
+            sp = rng.choice(cands)
+            n_al = rng.choice([a for a in (2, 4, 8) if a < hint[sp.key]])
+            patch = gen_patch(rng, model, params, wl, ids, allow_cf=False)
+            patch["lines"] = [{"raw": f".align {n_al}"}] + [l for l in patch["lines"] if not ("raw" in l and l["raw"].startswith(".align")) and "label" not in l]
+            if not any("raw" not in l for l in patch["lines"]):
+                patch["lines"].append({"v": "nop"})
+            ops.append({"k": "ins", "at": sorted(sp.offsets.items())[0][1], "side": "before", "patch": patch})
+            seen.add(sp.key)
     if params.get("retarget_p") and rng.random() < params["retarget_p"]:
         rts = gen_retargets(rng, model, wl)
         ops.extend(rts)
